@@ -68,6 +68,9 @@ def steady(draw):
                     shape = draw(st.sampled_from([None, None, None, None, "no-module", "partial", "instance", "method"]))
                     if shape:
                         p["callable"] = shape
+                elif draw(st.integers(0, 4)) == 0:
+                    # a singleton service: its class hands out the existing instance when it is constructed again (twice more, later)
+                    p["singleton"] = 2
                 elif draw(st.integers(0, 3)) == 0:
                     # service objects with value semantics: all equal and hashing alike, or unhashable
                     p["value_semantics"] = draw(st.sampled_from(["equal", "equal", "unhashable"]))
@@ -282,7 +285,8 @@ def run_case(sc) -> Result:
     flavours = {p["flavour"] for p in sc["payloads"] if p["role"] in ("adopt", "service")}
     in_window = getattr(res, "info_in_window", 0)
     res.cls("refined-service:" + str(any(p.get("refines") for p in sc["payloads"])),
-            "value-semantics-service:" + str(any(p.get("value_semantics") for p in sc["payloads"])))
+            "value-semantics-service:" + str(any(p.get("value_semantics") for p in sc["payloads"])),
+            "singleton-service:" + str(any(p.get("singleton") for p in sc["payloads"])))
     res.cls("phase:" + sc["phase"], "flavours:%d" % len(flavours), "payloads:%s" % ("0" if not sc["payloads"] else "<10" if len(sc["payloads"]) < 10 else ">=10"),
             "adopts-in-cleanup-window:%s" % ("0" if not in_window else "1-5" if in_window <= 5 else ">5"))
     for p in sc["payloads"]:
